@@ -40,6 +40,16 @@ MUTANTS = [
      "    cv_finished_.notify_all();\n}",
      "    if (idle_ == threads_.size())\n        cv_finished_.notify_all();\n}",
      "seeded c10a-B: terminate() skips the cv_finished_ notification unless every worker is idle"),
+    ("c10_m7_enqueue_stale_has_idle", "C10", "tlx/thread_pool.cpp",
+     [("    std::unique_lock<std::mutex> lock(mutex_);\n    jobs_.emplace_back(std::move(job));\n    cv_jobs_.notify_one();",
+       "    const bool wake_worker = has_idle();\n    std::unique_lock<std::mutex> lock(mutex_);\n"
+       "    jobs_.emplace_back(std::move(job));\n    if (wake_worker)\n        cv_jobs_.notify_one();")],
+     None, "seeded c10b-A: enqueue() notifies only if a stale has_idle() read (before the lock) was true"),
+    ("c10_m8_job_scope_removed", "C10", "tlx/thread_pool.cpp",
+     [("            {\n                // pull job.", "                // pull job."),
+      ("                // destroy job by closing scope\n            }\n", "")],
+     None, "seeded c10b-B: the scope around the local Job removed: the job object is destroyed after the bookkeeping, "
+           "with mutex_ held"),
     ("c11_m1_signal_n_notify_one", "C11", "tlx/semaphore.hpp",
      "        size_t res = (value_ += delta);\n        cv_.notify_all();",
      "        size_t res = (value_ += delta);\n        cv_.notify_one();",
